@@ -488,6 +488,45 @@ def extra_oracle(c, i):
     return None
 
 
+def extra_coverage(cases, impl, model, spec):
+    """what the run exercised: replies per label, 406s, decoded streams, concurrent groups, out-of-domain reasons"""
+    labels, decoded, n406, groups, maxn, big = {}, 0, 0, 0, 0, 0
+    ood_q, ood_ct = 0, 0
+    for c in cases:
+        i = impl.get(c.id)
+        if i is None:
+            continue
+        m = fill_meta(c)
+        if m.get("ood"):
+            if c.comp == "neg.pipe" and m.get("ctype") is None:
+                ood_ct += 1
+            else:
+                ood_q += 1
+            continue
+        if c.comp != "neg.pipe" or i.startswith("(L (N 96)") or i.startswith("(L (N 2)"):
+            continue
+        try:
+            v = xparse(i)
+        except Exception:
+            continue
+        big += m["blen"] >= 65536
+        for (ae, n), grp in zip(m["reqs"], v[1]):
+            if n:
+                groups += 1
+                maxn = max(maxn, n)
+            for r in grp[1]:
+                f = r[1]
+                if f[0][1] == 406:
+                    n406 += 1
+                elif len(f) == 7:
+                    lab = bytes(f[1][1][0][1]).decode() if f[1][1] else "(none)"
+                    labels[lab] = labels.get(lab, 0) + 1
+                    decoded += lab in ("gzip", "br", "zstd") and f[2][1] == 1 and f[3][1] == 1
+    return {"replies_by_content_encoding": labels, "replies_406": n406, "compressed_replies_decoded_to_identity_body": decoded,
+            "concurrent_groups": groups, "max_concurrent_requests": maxn, "cases_with_body_of_64KiB_or_more": big,
+            "out_of_domain_exotic_quality_text": ood_q, "out_of_domain_sniffed_content_type": ood_ct}
+
+
 def signature(c, m):
     if c.comp == "neg.pipe":
         if "(N 406)" in m or "(B 677a6970)" in m or "(B 6272)" in m or "(B 7a737464)" in m:
